@@ -153,6 +153,57 @@ def under_domain(host, domain):
     return host == d or host.endswith(b"." + d)
 
 
+def monitor_request_target_forms(ctx):
+    """`wwh retryloc`: every interactive endpoint x failure cause (no matching ingress, provider refusing / failing / unreachable,
+    session store down, missing login cookie) x way of writing the request line (origin-form, absolute-form naming the ingress or a
+    foreign host, scheme without / with empty authority, doubled slash, foreign Host header) x X-Forwarded-Host absent / naming the
+    configured ingress, through the real router, automatic retry redirects followed by a cookie-keeping browser.
+    From the property text: every Location wonderwall itself emits - the automatic retry 307s included - resolves, as a browser
+    resolves it against the URL it believes to be at (configured ingress origin + request path), to a configured ingress origin,
+    or is an operator-configured default (identity provider endpoint, post-logout URI, SSO default redirect URL): never to a
+    host that was only named in the request line or the Host header."""
+    import json
+    pre = ctx.path("retryloc")
+    out, dt = vf.run_driver(["retryloc", "-out", pre, "-seed", str(ctx.seed), "-tier", ctx.tier])
+    ctx.timings["retryloc_driver"] = round(dt, 2)
+    recs = [json.loads(l) for l in open(pre + ".jsonl")]
+    allowed_urls = sorted({u for r in recs for u in r["ingresses"] + list(r["configured_defaults"].values())})
+    with_loc = [r for r in recs if r["location"]]
+    pairs = [(r["browser_url"].encode(), r["location"].encode("utf-8", "surrogateescape")) for r in with_loc]
+    res = node_resolve(ctx, "retryloc", pairs + [(u.encode(), u.encode()) for u in allowed_urls])
+    origin_of = {u: parse_origin(x) for u, x in zip(allowed_urls, res[len(pairs):])}
+    sigs = set()
+    n_foreign_named = 0
+    for r, x in zip(with_loc, res):
+        o = parse_origin(x)
+        allowed = {origin_of[u] for u in r["ingresses"] + list(r["configured_defaults"].values())}
+        foreign = "evil" in (r["request_target"] + r["host_header"]).lower()
+        n_foreign_named += foreign
+        sigs.add((r["mode"], r["request_target_form"], bool(r["x_forwarded_host"]), r["endpoint"], r["fault"], r["status"], o[:3]))
+        if o[0] == "F":
+            continue    # the browser refuses the URL: no navigation
+        if o not in allowed:
+            case = {k: r[k] for k in ("mode", "ingresses", "configured_defaults", "request_target_form", "request_target", "host_header",
+                                      "x_forwarded_host", "endpoint", "fault", "browser_has_session", "step", "status", "location")}
+            case["request"] = "GET %s HTTP/1.1 / Host: %s%s" % (r["request_target"], r["host_header"],
+                                                                  (" / X-Forwarded-Host: " + r["x_forwarded_host"]) if r["x_forwarded_host"] else "")
+            case["fault_meaning"] = "no fault injected" if r["fault"] in ("n", "s") else ck_describe_fault(r["fault"])
+            case["location_resolves_to"] = x
+            ctx.violation("c04-redirect-to-request-line-host",
+                          "a redirect wonderwall generates itself (error path / automatic retry) leaves the configured ingress origins and "
+                          "operator-configured defaults: its Location names a host taken from the request line or Host header", case)
+    ctx.evals += len(recs)
+    ctx.extra["request_target_forms"] = {"responses": len(recs), "with_location": len(with_loc),
+                                         "requests_naming_a_foreign_host_with_location": n_foreign_named,
+                                         "driver": out.strip().split("\n")[-1]}
+    return len(sigs)
+
+
+def ck_describe_fault(f):
+    from lib.props import _cookie as ck
+    return ck.describe_fault(f)
+
+
 def run(ctx):
     pre = ctx.path("redirect")
     cfile = ctx.path("corpus.hex")
@@ -297,6 +348,10 @@ def run(ctx):
                 ctx.violation("c04-offsite-redirect", "the login URL built for autologin/retry resolves (WHATWG) outside the request origin", dict(case, resolved=r))
     stats["login_relative_locations"] = len(lkeys)
 
+    # ---- "on automatic error retry ... request target": the error paths of every interactive endpoint under every way of writing
+    # the request line (absolute-form for a foreign host, ...), with and without X-Forwarded-Host
+    ctx.nontrivial += monitor_request_target_forms(ctx)
+
     # ---- "and from the SSO proxy's login/logout": the real handlers behind the real router (lib/props/_spx.py)
     from lib.props import _spx
     xst, xnt = _spx.run(ctx, "C04")
@@ -334,6 +389,11 @@ def run(ctx):
                 "configurations), SSO domain and default redirect URL (8 SSO-server configurations: default with/without path, under/outside the domain, "
                 "with a port), ingress (5 SSO-proxy configurations) - the whole pool through every function under the default configuration and each "
                 "configuration's own near misses through its mode's Canonical/Clean (thorough: the whole pool under every configuration). " + _spx.RULE + ". "
+                "request-target forms (wwh retryloc): {origin-form, absolute-form naming the ingress / a foreign host (http, https+port, upper case, ingress host as "
+                "userinfo), scheme without / with empty authority, doubled leading slash, foreign Host header} x X-Forwarded-Host {absent, the configured ingress} x "
+                "{login, callback, logout, logout callback, local logout, front-channel logout} x failure causes {none, no matching ingress, provider refuses / 5xx / "
+                "undecodable / connection refused, missing login cookie, session store down plain / deadline / cancelled} x 3 configurations (standalone with and "
+                "without path prefix, SSO server), retry redirects followed for up to 6 requests, every Location resolved by Node against the ingress URL. "
                 "distinct_nontrivial = cases whose canonical redirect is not the fallback")
     ctx.assumptions += [
         "browsers are represented by the WHATWG URL algorithm (Model/Whatwg.v for the theorems, Node 20's implementation for the monitor); the model is validated against Node only",
